@@ -16,7 +16,7 @@ for i in ids:
     if meta.get("status") == "obsolete": rows.append((i, meta["property"], "obsolete", meta.get("obsolete_reason", "")[:120])); continue
     tree = '/repo'; env = dict(os.environ)
     if ALT:
-        tree = '/tmp/seeded_wt'; sh(f'git -C /repo worktree remove --force {tree}'); sh(f'git -C /repo worktree add --detach {tree} HEAD'); env['VERIF_REPO'] = tree
+        tree = os.environ.get('SEEDED_WT', '/tmp/seeded_wt'); sh(f'git -C /repo worktree remove --force {tree}'); sh(f'git -C /repo worktree add --detach {tree} HEAD'); env['VERIF_REPO'] = tree
     r = sh(f'git -C {tree} apply {d}/patch.diff')
     if r.returncode: rows.append((i, meta['property'], 'PATCH DOES NOT APPLY', r.stdout.strip()[:100])); continue
     try:
